@@ -147,6 +147,7 @@ class World:
     def __init__(s, mir_micro, mir_vdev, repo_src):
         s.enums = read_enums(repo_src)
         s.ex = Engine(s.enums)
+        s.ex.std_world = 'std' in os.path.basename(mir_micro)      # MIR of the std-feature build: heap models allowed
         f1, a1 = mir.read_mir(mir_micro, 'microscpi')
         f2, a2 = mir.read_mir(mir_vdev, 'vdev')
         s.ex.load(f1, a1, 'microscpi')
